@@ -35,7 +35,8 @@ fn parse_case(ctx: &mut Ctx, s: &str, class: &str) {
         return;
     }
     // non-trivial: the grammar accepts the string, so FromStr's own logic runs
-    let lexes = parse_dsymbol(s).is_ok();
+    // (the implementation is never called outside a catch_unwind: a panic here must not kill the shard)
+    let lexes = catch_unwind(AssertUnwindSafe(|| parse_dsymbol(s).is_ok())).unwrap_or(false);
     let tag = format!("{}{} lexes={} len={}", if lexes { "nt " } else { "" }, class, lexes as u8, (s.len() / 16 * 16).min(256));
     ctx.case(
         "parse",
@@ -530,8 +531,15 @@ fn main() {
         let base = random_vs(&t, &mut rng, &[1, 2, 3, 4, 6, 11, 24]);
         let sheets = [2usize, 3, 8, 13, 32][rng.below(5)].min(400 / n);
         let twist = sheets % 2 == 0 && rng.chance(1, 2);
-        let c = cover(&base.to_partial_dsym(), sheets, |sh, i, _| if twist && i == 0 { sh ^ 1 } else { sh });
-        let ct = Tab::from_dsym(&c);
+        // universe construction uses library constructors: guarded, and reported if it panics
+        let built = catch_unwind(AssertUnwindSafe(|| {
+            let c = cover(&base.to_partial_dsym(), sheets, |sh, i, _| if twist && i == 0 { sh ^ 1 } else { sh });
+            Tab::from_dsym(&c)
+        }));
+        let Ok(ct) = built else {
+            ctx.case("setup", "nt", || format!("cover {} {}", sheets, base.enc()), || "PANIC".to_string());
+            continue;
+        };
         let p = random_perm1(&mut rng, ct.size);
         let r = ct.renumbered(&p);
         print_all(&mut ctx, &ct, &mut rng, k % 4 == 0, "cover");
